@@ -142,9 +142,48 @@ def run(rep, tier):
 
 
 # ------------------------------------------------------------------------------------------------ update_ibi_pot.pl
+def roles(sc):
+    """array names by role, read off the table I/O calls: readin_table(file, X, Y, FLAG), saveto_table(file, X, Y, FLAG, comments)"""
+    cs = [e for e in sc.fo.events if e["kind"] == "call"]
+    rd = [e for e in cs if e["callee"] == "readin_table"]
+    sv = [e for e in cs if e["callee"] == "saveto_table"]
+    if len(rd) != 1 or len(sv) != 1 or len(rd[0]["arg_names"]) < 4 or len(sv[0]["arg_names"]) < 4 or None in rd[0]["arg_names"][1:4] or None in sv[0]["arg_names"][1:4]:
+        raise AnalysisBroken("%s: expected one readin_table and one saveto_table call with array arguments" % sc.name)
+    r_, s_ = rd[0]["arg_names"], sv[0]["arg_names"]
+    return {"x": r_[1].lstrip("@"), "y": r_[2].lstrip("@"), "flag": r_[3].lstrip("@"), "xout": s_[1].lstrip("@"), "yout": s_[2].lstrip("@"), "flagout": s_[3].lstrip("@")}
+
+
+def is_last(v, ro):
+    return str(getattr(v, "func", "")) == "last" and str(v.args[0]).lstrip("@") in (ro["x"], ro["y"], ro["flag"])
+
+
+def argv_scalar(sc, k):
+    """name of the scalar that holds command-line argument k"""
+    nm = [n for n, v in getattr(sc.fo, "inputs", {}).items() if v == Fn("elem")(S("@ARGV"), sp.Integer(k))]
+    if len(nm) != 1:
+        raise AnalysisBroken("%s: the variable holding command-line argument %d was not found" % (sc.name, k))
+    return nm[0]
+
+
+def read_of(sc, filevar):
+    rd = [e for e in sc.fo.events if e["kind"] == "call" and e["callee"] == "readin_table" and e["args"] and str(e["args"][0]) == filevar]
+    if len(rd) != 1 or len(rd[0]["arg_names"]) < 4 or None in rd[0]["arg_names"][1:4]:
+        raise AnalysisBroken("%s: the readin_table call for %s was not found" % (sc.name, filevar))
+    return [x.lstrip("@") for x in rd[0]["arg_names"][1:4]]
+
+
 def check_ibi(rep):
     sc = Script(rep, "update_ibi_pot.pl")
-    main = [e for e in sc.stores("dpot") if e["value"] is not None and hasattr(e["value"], "has") and e["value"].has(sp.log)]
+    # roles: argument 0 = target rdf, 1 = current rdf, 2 = current potential, 3 = output, 4 = kBT
+    XAIM, AIM, _fa = read_of(sc, argv_scalar(sc, 0))
+    _xc, CUR, _fc = read_of(sc, argv_scalar(sc, 1))
+    _xp, _yp, PFL = read_of(sc, argv_scalar(sc, 2))
+    PREF = S(argv_scalar(sc, 4))
+    sv = [e for e in sc.fo.events if e["kind"] == "call" and e["callee"] == "saveto_table"]
+    if len(sv) != 1 or len(sv[0]["arg_names"]) < 4 or None in sv[0]["arg_names"][1:4] or str(sv[0]["args"][0]) != argv_scalar(sc, 3):
+        raise AnalysisBroken("update_ibi_pot.pl: the saveto_table call writing the output file was not found")
+    DP, FLG = [x.lstrip("@") for x in sv[0]["arg_names"][2:4]]
+    main = [e for e in sc.stores(DP) if e["value"] is not None and hasattr(e["value"], "has") and e["value"].has(sp.log)]
     lids = []
     for e in main:
         l = sc.loop_of(e)
@@ -164,7 +203,7 @@ def check_ibi(rep):
             isym = cand[0] if cand else None
         if isym is None:
             raise AnalysisBroken("update_ibi_pot.pl: index variable of the sweep at line %s not found" % l["line"])
-        aim, cur, pfl = el("rdf_aim", isym), el("rdf_cur", isym), el("pot_flags_cur", isym)
+        aim, cur, pfl = el(AIM, isym), el(CUR, isym), el(PFL, isym)
         carried = [(nm, sy) for nm, sy in (l.get("syms") or {}).items() if sy != isym] if l["kind"] != "enteriter" else \
                   [(nm, S("%s@%s" % (nm, lid))) for nm in l["step"] if nm != l["var"]]
         if len(carried) != 1:
@@ -175,7 +214,7 @@ def check_ibi(rep):
             if isinstance(lf, tuple) and lf and lf[0] == "match" and lf[1] == pfl and "u" in str(lf[2]):
                 return ("U", True)
             return None
-        want_upd = S("$pref") * sp.log(cur / aim)
+        want_upd = PREF * sp.log(cur / aim)
         bad = None
         # the rdf values are touched through comparisons only: representatives on both sides of the threshold, including pairs whose
         # product / sum is on the other side of it than the factors
@@ -185,12 +224,12 @@ def check_ibi(rep):
             atoms = {"U": u_}
             sub = {aim: va, cur: vc}
             valid = va > thr and vc > thr and not u_
-            dp = sc.final("dpot", isym, lid, atoms, orc, sub)
-            fl = sc.final("flag", isym, lid, atoms, orc, sub)
+            dp = sc.final(DP, isym, lid, atoms, orc, sub)
+            fl = sc.final(FLG, isym, lid, atoms, orc, sub)
             nv = sc.resolve(l["step"].get(vname), atoms, orc, sub)
             if dp is None or fl is None or nv is None or ites(dp) or ites(nv):
                 raise AnalysisBroken("update_ibi_pot.pl sweep at line %s: update, flag or carried value undecided for rdf_aim=%s, rdf_cur=%s, %s" % (l["line"], va, vc, atoms))
-            nv = nv.xreplace({el("dpot", isym): dp}) if hasattr(nv, "xreplace") else nv
+            nv = nv.xreplace({el(DP, isym): dp}) if hasattr(nv, "xreplace") else nv
             if valid:
                 ok = leq(dp, want_upd) and str(fl) == '"i"' and leq(nv, want_upd)
             else:
@@ -209,12 +248,12 @@ def check_ibi(rep):
     bw = [b for b in dirs.values() if b and b[2] == -1]
     if len(fw) == 1 and len(bw) == 1:
         M = fw[0][0]
-        okb = sp.simplify(bw[0][0] - (M - 1)) == 0 and bw[0][1] == 0 and str(getattr(fw[0][1], "func", "")) == "last" and is_argmax(sc, M, "@rdf_cur")
+        okb = sp.simplify(bw[0][0] - (M - 1)) == 0 and bw[0][1] == 0 and str(getattr(fw[0][1], "func", "")) == "last" and str(fw[0][1].args[0]).lstrip("@") in (XAIM, AIM, CUR, _xc) and is_argmax(sc, M, "@" + CUR)
         if not okb:
             why += "; the sweeps must start at the index of the maximum of the current rdf"
     rep.check(okb, "R19.1", "ibi|sweeps-agree", "forward sweep from the rdf maximum to the last point, backward sweep from the point before it down to 0",
               "update_ibi_pot.pl: %s; required max..last and max-1..0 (every point updated exactly once)" % why, sc.loc)
-    passthrough(rep, sc, "r_aim", None, written_flag="flag")
+    passthrough(rep, sc, XAIM, None, written_flag=FLG)
 
 
 def is_argmax(sc, M, arr):
@@ -251,12 +290,14 @@ def is_argmax(sc, M, arr):
 # ------------------------------------------------------------------------------------------------ dist_boltzmann_invert.pl
 def check_boltzmann(rep):
     sc = Script(rep, "dist_boltzmann_invert.pl")
-    inv = [e for e in sc.stores("pot") if hasattr(e["value"], "has") and e["value"].has(sp.log)]
+    ro = roles(sc)
+    X, Y, FL, YO = ro["x"], ro["y"], ro["flag"], ro["yout"]
+    inv = [e for e in sc.stores(YO) if hasattr(e["value"], "has") and e["value"].has(sp.log)]
     if len(inv) != 1:
         raise AnalysisBroken("dist_boltzmann_invert.pl: expected one inversion assignment, found %d" % len(inv))
     lid = sc.loop_of(inv[0])
     isym = inv[0]["idx"][0]
-    dist, x = el("dist", isym), el("x", isym)
+    dist, x = el(Y, isym), el(X, isym)
     dmin = S("$dist_min")
 
     def orc(lf):
@@ -272,8 +313,8 @@ def check_boltzmann(rep):
     for d_ in (True, False):
         for ty, norm in (("bond", x * x), ("angle", sp.sin(x)), ("other", sp.Integer(1))):
             atoms = {"D": d_, "type=bond": ty == "bond", "type=angle": ty == "angle"}
-            pv = sc.final("pot", isym, lid, atoms, orc)
-            fv = sc.final("flag", isym, lid, atoms, orc)
+            pv = sc.final(YO, isym, lid, atoms, orc)
+            fv = sc.final(FL, isym, lid, atoms, orc)
             if pv is None or ites(pv):
                 raise AnalysisBroken("dist_boltzmann_invert.pl: potential undecided for %s" % atoms)
             if d_:
@@ -287,9 +328,9 @@ def check_boltzmann(rep):
     rep.check(bad is None, "R19.1", "boltzmann|formula", "U = -kBT ln(P/norm) where P > dist_min, norm = 1 / x^2 (bond) / sin x (angle); nan and flag u elsewhere",
               "dist_boltzmann_invert.pl: " + (bad or ""), sc.loc, sample=True)
     b = sc.bounds(lid)
-    rep.check(b is not None and b[0] == 0 and str(getattr(b[1], "func", "")) == "last" and b[2] == 1, "R19.1", "boltzmann|norm", "every table point 0..last is inverted",
+    rep.check(b is not None and b[0] == 0 and is_last(b[1], ro) and b[2] == 1, "R19.1", "boltzmann|norm", "every table point 0..last is inverted",
               "dist_boltzmann_invert.pl: the inversion loop runs over %s" % ((tuple(map(str, b)),) if b else "an unrecognised range"), sc.loc, sample=True)
-    passthrough(rep, sc, "x", "flag")
+    passthrough(rep, sc, X, FL)
 
 
 # ------------------------------------------------------------------------------------------------ table_linearop.pl
@@ -313,21 +354,6 @@ def check_linearop(rep):
 
 
 # ------------------------------------------------------------------------------------------------ potential_shift.pl
-def roles(sc):
-    """array names by role, read off the table I/O calls: readin_table(file, X, Y, FLAG), saveto_table(file, X, Y, FLAG, comments)"""
-    cs = [e for e in sc.fo.events if e["kind"] == "call"]
-    rd = [e for e in cs if e["callee"] == "readin_table"]
-    sv = [e for e in cs if e["callee"] == "saveto_table"]
-    if len(rd) != 1 or len(sv) != 1 or len(rd[0]["arg_names"]) < 4 or len(sv[0]["arg_names"]) < 4 or None in rd[0]["arg_names"][1:4] or None in sv[0]["arg_names"][1:4]:
-        raise AnalysisBroken("%s: expected one readin_table and one saveto_table call with array arguments" % sc.name)
-    r_, s_ = rd[0]["arg_names"], sv[0]["arg_names"]
-    return {"x": r_[1].lstrip("@"), "y": r_[2].lstrip("@"), "flag": r_[3].lstrip("@"), "xout": s_[1].lstrip("@"), "yout": s_[2].lstrip("@"), "flagout": s_[3].lstrip("@")}
-
-
-def is_last(v, ro):
-    return str(getattr(v, "func", "")) == "last" and str(v.args[0]).lstrip("@") in (ro["x"], ro["y"], ro["flag"])
-
-
 def check_shift(rep):
     sc = Script(rep, "potential_shift.pl")
     ro = roles(sc)
@@ -466,9 +492,11 @@ def check_smooth(rep):
 # ------------------------------------------------------------------------------------------------ table_integrate.pl
 def check_integrate(rep):
     sc = Script(rep, "table_integrate.pl")
-    r_ = lambda k: el("r", k)
-    f_ = lambda k: el("force", k)
-    pots = [e for e in sc.stores("pot") if sc.loop_of(e) is not None and hasattr(e["value"], "has") and e["value"].has(Fn("elem")) and not e["value"].is_number]
+    ro = roles(sc)
+    X, Y, FL, YO = ro["x"], ro["y"], ro["flag"], ro["yout"]
+    r_ = lambda k: el(X, k)
+    f_ = lambda k: el(Y, k)
+    pots = [e for e in sc.stores(YO) if sc.loop_of(e) is not None and hasattr(e["value"], "has") and e["value"].has(Fn("elem")) and not e["value"].is_number]
     rep.floor("R19.1", len(pots), 2, "trapezoid recurrences")
     seen = set()
     for e in pots:
@@ -476,17 +504,17 @@ def check_integrate(rep):
         gl = [sc.fo.cond_str(g[0]) + ("" if g[1] else " [false]") for g in e["guards"] if "$from" in sc.fo.cond_str(g[0])]
         right = any('"right"' in g and "[false]" not in g for g in gl) or any('"left"' in g and "[false]" in g for g in gl)
         if right:
-            want = el("pot", i + 1) - Q(1, 2) * (r_(i + 1) - r_(i)) * (f_(i + 1) + f_(i))
+            want = el(YO, i + 1) - Q(1, 2) * (r_(i + 1) - r_(i)) * (f_(i + 1) + f_(i))
         else:
-            want = el("pot", i - 1) + Q(1, 2) * (r_(i) - r_(i - 1)) * (f_(i) + f_(i - 1))
+            want = el(YO, i - 1) + Q(1, 2) * (r_(i) - r_(i - 1)) * (f_(i) + f_(i - 1))
         seen.add(right)
         rep.check(is_zero(e["value"] - want), "R19.1", "integrate|%s" % ("right" if right else "left"), "trapezoid: U_i = U_(i+-1) -+ (r_(i+1)-r_i)/2 (f_i + f_(i+-1))",
                   "table_integrate.pl (%s) recurrence is %s" % ("from right" if right else "from left", e["value"]), "%s:%s" % (sc.loc, e["line"]), sample=True)
     if seen != {True, False}:
         raise AnalysisBroken("table_integrate.pl: both integration directions expected, found %s" % seen)
-    start = {str(e["idx"][0]): e["value"] for e in sc.stores("pot") if sc.loop_of(e) is None and e["value"] == 0}
-    rep.check(set(start) == {"0", "last(@r)"}, "R19.1", "integrate|origin", "integration constant: U = 0 at the starting end", "table_integrate.pl does not start from 0 at the chosen end (%s)" % start, sc.loc)
-    passthrough(rep, sc, "r", "flag")
+    start = {("last" if is_last(e["idx"][0], ro) else str(e["idx"][0])): e["value"] for e in sc.stores(YO) if sc.loop_of(e) is None and e["value"] == 0}
+    rep.check(set(start) == {"0", "last"}, "R19.1", "integrate|origin", "integration constant: U = 0 at the starting end", "table_integrate.pl does not start from 0 at the chosen end (%s)" % start, sc.loc)
+    passthrough(rep, sc, X, FL)
 
 
 # ------------------------------------------------------------------------------------------------ pass-through
